@@ -83,6 +83,18 @@ Theorem C05_skip_and_error_arms_match_source :
 Proof.
   split; [exact skip_arm|]. split; [exact error_arm|]. split; [|split; [|exact arms_distinct]]; vm_compute; do 3 eexists; split; reflexivity.
 Qed.
+(* Process::do_action, statically: the list and order of the rejections in front of Task::update is regenerated from
+   process.rs on every run (`do_action_checks`; every way out of that part of the function must be one of the five
+   checks the translator knows, or the run stops); what each check means is `chk_fails`.  The model rejects an action
+   exactly when one of the source's checks fails or the arm's own `already completed` guard does; and an accepted action
+   on an act with declared outputs carries exactly the declared keys (the source cuts the options). *)
+Theorem C05_admission_is_the_checks_of_the_source :
+  forall e i a opts,
+    (admission e i a opts = None <->
+       rejected_early e i a opts = true \/ (arm_guard a = true /\ is_completed (st e i) = true)) /\
+    (forall cv a', admission e i a opts = Some (cv, a') -> do_action_cuts_options = true -> n_outs (tnode e i) = true ->
+       map fst cv = map fst (n_outputs (tnode e i)) /\ a' = cut_action a).
+Proof. intros e i a opts. split; [exact (admission_none_iff e i a opts) | exact (admission_cut e i a opts)]. Qed.
 Theorem C05_runs_satisfy_the_invariant : forall ns c0 ops, J (run ns c0 ops).
 Proof. exact run_J. Qed.
 Example C05_example :
@@ -106,3 +118,4 @@ Print Assumptions C05_closing_action_is_the_last.
 Print Assumptions C05_runs_satisfy_the_invariant.
 Print Assumptions C05_update_arms_match_source.
 Print Assumptions C05_skip_and_error_arms_match_source.
+Print Assumptions C05_admission_is_the_checks_of_the_source.
